@@ -172,8 +172,27 @@ def check_eig(res, ss, tag, zeroed, mu_given=None, refresh=False):
     if len(zidx):
         Fss, Fsz, Fzs, Fzz = F[np.ix_(sidx, sidx)], F[np.ix_(sidx, zidx)], F[np.ix_(zidx, sidx)], F[np.ix_(zidx, zidx)]
         if np.linalg.matrix_rank(Fzz) < len(zidx):
-            # the property is stated for systems with a non-singular algebraic block (zero-T states included)
-            res.count("out_of_scope_singular_algebraic_block")
+            # the block of the zero-T states is singular (higher-index arrangement, e.g. a second-order block with both time
+            # constants zero): the own Schur complement does not exist, but the pencil (A, E) is still regular and its finite
+            # generalised eigenvalues (oracle 1, QZ) are the modes.  Whatever EIG reports as success must be that spectrum.
+            res.count("singular_zero_T_block_decided_by_pencil")
+            lam_f = lam[np.isfinite(lam)]
+            if len(lam_f) != len(lam) or len(lam) == 0:
+                res.count("out_of_scope_singular_pencil")
+                res.sig = tag
+                return None
+            if len(mu) != len(lam):
+                res.violate("mode_count_singular_zero_block", "%s: %d eigenvalues reported as a successful analysis, the pencil (A, E) has %d finite "
+                            "generalised eigenvalues (%d states, %d zero time constants whose block is singular); largest reported real part %.3g, "
+                            "largest real part of the finite spectrum %.3g" % (tag, len(mu), len(lam), n, n - nz, float(np.max(mu.real)) if len(mu) else float("nan"),
+                                                                              float(np.max(lam.real))), zeroed=zeroed, n_zero=n - nz)
+            else:
+                dist, _ = match(mu, lam)
+                res.maxobs("max_mode_distance_singular_zero_block", dist)
+                res.count("modes_matched", len(mu))
+                if dist > 1e-5:
+                    res.violate("eigenvalues_singular_zero_block", "%s: reported eigenvalues differ from the finite generalised eigenvalues of (A, E) by %.3e relative" % (
+                        tag, dist), zeroed=zeroed)
             res.sig = tag
             return None
         Ared = Fss - Fsz @ np.linalg.solve(Fzz, Fzs)
@@ -457,7 +476,12 @@ def run_case(spec):
             res.violate("eig_raises", "%s: EIG.run() raised %r" % (tag, e), zeroed=zeroed)
             return res
         if not ok:
-            res.inconc("EIG.run() returned False")
+            # a refusal is a reported failure, not a wrong spectrum: counted, and required to be visible in the exit code
+            res.count("eig_reported_failure")
+            if not ss.exit_code:
+                res.violate("eig_failure_exit_code_zero", "%s: EIG.run() returned False but System.exit_code is 0" % tag)
+            res.sig = tag
+            res.sample = dict(case=spec["case"], operating_point=desc, zeroed=zeroed, eig_returned=False)
             return res
         if check_eig(res, ss, tag, zeroed) is None:
             res.sig = tag
